@@ -292,7 +292,7 @@ def descent_p_vc(unigram=False, vector_idx=False):
             d = z(st["desc"].elem(x))
             out = [inv_at(st, k, x), AX_A(d), HXOK(x / V)] + [mn["lb"](x / V) for mn in I.ex.ghost.get("mins_all", [])]
             if cur.get("lemma") is not None:
-                an, t = cur["any"], z(cur["frame"].locals["hist_n"].elem(x))
+                an, t = cur["any"], z(ip.local(cur["frame"], "hist_n").elem(x))
                 wx = an["W"](x)
                 out += [an["witness"]([x]), cur["lemma"](x, S), DEF_I(d, t, cs(d) + wx), DEF_II(d, t), an["intro"]([x], CHILD(d, t) - cs(d)), AX_B(d, cs(d) + wx), AX_A(cs(d) + wx)]
             return out
